@@ -626,6 +626,9 @@ func checkMain(args []string) int {
 		fmt.Println(l)
 	}
 	if nViol > 0 {
+		for _, l := range inconclusive {
+			fmt.Println("note (also inconclusive):", l)
+		}
 		return 1
 	}
 	if len(inconclusive) > 0 {
